@@ -185,8 +185,12 @@ def pool_for(pid, tier, seed):
     if n == 6:
         return [c for c in allp if 'tracked' in c['tags'] or 'nontrivial' in c['tags']]
     if n == 7:
-        extra = [c for c in cfggen.allocator_pool() if c['alloc'] in ((True, True, True, False), (False, False, False, True))]
-        return allp + extra
+        ap = cfggen.allocator_pool()
+        extra = [c for c in ap if c['alloc'] in ((True, True, True, False), (False, False, False, True))]
+        # every combination of the propagation traits (the library consults each trait separately) for a list without
+        # and a list with an address table
+        mixed = [c for c in ap if c['name'].startswith(('u32_u8__', 'u8_Vu16__')) and c not in extra]
+        return allp + extra + mixed
     if n == 8:
         return cfggen.allocator_pool()
     if n == 11:
@@ -216,6 +220,18 @@ BUDGET = {
     'C09': (4000, 24, 16000, 60), 'C10': (5000, 25, 20000, 60), 'C11': (4000, 25, 16000, 60), 'C12': (4000, 22, 16000, 50),
     'C13': (5000, 24, 20000, 40), 'C14': (5000, 24, 20000, 40), 'C16': (4000, 30, 16000, 70), 'C18': (5000, 18, 20000, 40),
     'C17': (150, 12, 1500, 30),
+}
+
+LEDGER_CODES = {'dealloc_unknown_pointer', 'dealloc_wrong_arena', 'dealloc_wrong_size', 'dealloc_wrong_type', 'block_never_returned', 'crash'}
+REGISTRY_CODES = {'block_freed_with_live_objects', 'construct_on_live_object', 'destroy_of_dead_object', 'object_bytes_clobbered', 'use_of_dead_object',
+                  'object_never_destroyed', 'live_object_not_held', 'held_object_not_alive', 'crash'}
+FAULT_FAMILIES = {
+    'C06': {'want': lambda c: 'tracked' in c['tags'], 'match': lambda code, last: code in REGISTRY_CODES,
+            'view': 0x100, 'what': 'the object-lifetime registry reports it (double construction/destruction, use after destruction, clobbered or leaked object) or the process dies'},
+    'C07': {'want': lambda c: True, 'match': lambda code, last: code in LEDGER_CODES,
+            'view': 0x200, 'what': 'the checking allocator reports it (unknown pointer / double free, wrong size, wrong arena, block never returned) or the process dies'},
+    'C10': {'want': lambda c: True, 'match': lambda code, last: last == 'RESERVE',
+            'view': 0x400, 'what': 'the operation that met the failure is reserve(): a reserve that throws must leave capacity(), size() and all values as they were'},
 }
 
 RULES = {
@@ -447,6 +463,51 @@ def run_history_property(pid, tier, seed, rule, level='exploration', extra_cov=N
         else:
             print('FLAKY-NOT-REPORTED: %s replay failed %d/3 times' % (c['name'], fails))
 
+    # fault sub-campaign: histories in which an allocation of the last operation throws are histories too. The engine's
+    # fault-enumeration mode (the deciding step of C17) is run on part of the pool and a failure is reported under this
+    # property when its code belongs to the property's own oracle family (see FAULT_FAMILIES)
+    fault_summary = None
+    fam = FAULT_FAMILIES.get(pid)
+    if fam:
+        fpool = [c for c in runnable if fam['want'](c)]
+        fpool = fpool[:(16 if tier == 'quick' else 48)]
+        fcases, fmaxlen = (60, 10) if tier == 'quick' else (400, 24)
+        if os.environ.get('VERIF_CASES'):
+            fcases = max(10, int(os.environ['VERIF_CASES']) // 20)
+        with ThreadPoolExecutor(JOBS) as ex:
+            fres = list(ex.map(lambda c: run_shard(built[c['name']][0], 17, fcases, fmaxlen, shard_seed(seed, c['name'], pid + 'fault'), outdir, c['name'] + '.fault', guards | fam['view']), fpool))
+        fault_summary = {'configurations': len(fpool), 'cases_per_configuration': fcases, 'max_program_length': fmaxlen, 'evaluations': 0,
+                         'distinct_nontrivial': 0, 'fault_injected_runs': 0, 'failures_outside_this_property': 0,
+                         'rule': 'fault-enumeration mode of the engine (as in C17): a generated history, then its last operation re-run once per allocation it performs with that allocation throwing std::bad_alloc, everything destroyed afterwards; reported here when ' + fam['what']}
+        for c, r in zip(fpool, fres):
+            if r['stats']:
+                fault_summary['evaluations'] += r['stats']['evaluations']
+                fault_summary['distinct_nontrivial'] += r['stats']['distinct_nontrivial']
+                fault_summary['fault_injected_runs'] += r['stats'].get('fault_runs', 0)
+            if r['rc'] == 0:
+                continue
+            rep = r['replay'] or r['crash']
+            if rep is None:
+                continue
+            fails, code = 0, None
+            for _ in range(3):
+                verdict, cd, out = replay_once(built[c['name']][0], rep, guards | fam['view'])
+                if verdict != 'pass':
+                    fails += 1
+                    code = cd
+            if fails < 3:
+                print('FLAKY-NOT-REPORTED: %s fault replay failed %d/3 times' % (c['name'], fails))
+                continue
+            bare = code.split('.', 1)[1] if '.' in code else code
+            last_kind = [l.split()[1] for l in open(rep) if l.startswith('op ')][-1:]
+            if not fam['match'](bare, last_kind[0] if last_kind else ''):
+                fault_summary['failures_outside_this_property'] += 1
+                print('NOTE: fault history on %s fails with %s, which is outside the oracle family of %s (C17 decides it)' % (c['name'], code, pid))
+                continue
+            with open(rep, 'a') as f:
+                f.write('report_as %s\nview %d\n# found by the fault sub-campaign of %s: the last operation is re-run with one of its allocations throwing\n' % (pid, fam['view'], pid))
+            violations.append((c['name'] + ' (allocation failure injected)', pid + '.' + bare, save_violation_replay(pid, rep)))
+
     # second engine (thorough tier of the history properties): coverage-guided libFuzzer campaigns
     fuzz_summary = None
     if tier == 'thorough' and pid in FUZZ_PROPS:
@@ -516,6 +577,10 @@ def run_history_property(pid, tier, seed, rule, level='exploration', extra_cov=N
         ev['second_engine'] = fuzz_summary
         ev['evaluations'] += fuzz_summary['executions']
         ev['distinct_nontrivial'] += fuzz_summary['distinct_nontrivial']
+    if fault_summary:
+        ev['fault_sub_campaign'] = fault_summary
+        ev['evaluations'] += fault_summary['evaluations']
+        ev['distinct_nontrivial'] += fault_summary['distinct_nontrivial']
     if extra_cov:
         ev.update(extra_cov)
     if not ev['samples']:
